@@ -69,6 +69,22 @@ func recordField(t *Term) (string, ssa.Value, bool) {
 	return "", nil, false
 }
 
+// recordIndex: t is <record copy>.<field> (recordField); returns the SSA value of the position list[pos] the record was
+// copied from, nil when the term does not show one.
+func recordIndex(t *Term) ssa.Value {
+	if t == nil || t.Op != "field" {
+		return nil
+	}
+	b := t.Args[0]
+	for (b.Op == "un" && b.Name == "&") || (b.Op == "phi" && len(b.Args) == 1) {
+		b = b.Args[0]
+	}
+	if b.Op == "elem" && len(b.Args) == 2 && b.Args[0].Op == "call" && b.Args[0].Name == "iface.Innovations" && b.Args[1].V != nil {
+		return stripCT(b.Args[1].V)
+	}
+	return nil
+}
+
 func (r *Run) innovSiteOf(name, kind string) *innovSite {
 	p := r.P
 	fn := p.Func(PkgG, "Genome."+name)
@@ -685,7 +701,7 @@ func c03Core(p *Prog, r *Run, sums *Summaries) {
 		r.Check(sm.Why == "" && idT != nil && isParamIdx(idT, 0) && ntT != nil && isParamIdx(ntT, 1), "NewNNode", p.Pos(nn.Pos()), "NewNNode(id, role) stores both", fmt.Sprintf("NewNNode: Id=%v NeuronType=%v %s", idT, ntT, sm.Why))
 	})
 
-	r.Rule("C03.2", "reuse-guard completeness: a record is matched only under kind, in node id, out node id and recurrence flag (links) resp. the split gene's number (nodes), compared with the values the new gene is built from, scanning the whole list", func() {
+	r.Rule("C03.2", "reuse-guard completeness and exactness: a record is matched only under kind, in node id, out node id and recurrence flag (links) resp. the split gene's number (nodes), compared with the values the new gene is built from, scanning the whole list; and under nothing that the record stored for the same innovation would fail (identical innovations of one generation share their numbers)", func() {
 		for _, s := range sites {
 			name := s.fn.Name()
 			if s.innLoop == nil || len(s.reuse) == 0 {
@@ -715,6 +731,32 @@ func c03Core(p *Prog, r *Run, sums *Summaries) {
 			}
 			wantTypeVal := p.Const(PkgG, wantType).Val().ExactString()
 			var extra []string
+			type recEq struct {
+				f string
+				o *Term
+				g Guard
+			}
+			var eqs []recEq
+			// which element of the list the reuse path reads: every number (and the node id) it takes comes from list[pos] with
+			// one and the same position value; a comparison made on an element at another position (`list[0]`, `list[i-1]`)
+			// says nothing about the record the gene is built from
+			var genePos ssa.Value
+			onePos := true
+			notePos := func(t *Term) {
+				pos := recordIndex(t)
+				if pos == nil || (genePos != nil && genePos != pos) {
+					onePos = false
+				}
+				genePos = pos
+			}
+			for _, q := range s.reuse {
+				notePos(s.tmAt(q.call.Block()).Of(q.args[5]))
+				if nn, isCall := q.args[3].(*ssa.Call); s.kind == "node" && isCall && nn.Call.StaticCallee() != nil && nn.Call.StaticCallee().Name() == "NewNNode" {
+					notePos(s.tmAt(nn.Block()).Of(nn.Call.Args[0]))
+				}
+			}
+			r.Check(onePos, name+".reuse.one-record", p.Pos(gc.call.Pos()), "the numbers (and node id) of the reuse path are read from one element of the scanned list",
+				name+": the genes of the reuse path take their numbers / node id from different elements of the innovation list, or from a position that cannot be followed")
 			// ... and when the scan hands out the position of the matched record (`idx = i; break` ... `if idx >= 0 { list[idx] }`),
 			// what held for list[i] on the way out holds for the record the gene is built from (see indexMatch)
 			ixConds, ixRecs, ixExits := s.indexMatch(p, gc.call.Block())
@@ -766,7 +808,11 @@ func c03Core(p *Prog, r *Run, sums *Summaries) {
 					if !isRec || (kc.recs != nil && !kc.recs[rb]) {
 						continue
 					}
+					if kc.recs == nil && (!onePos || recordIndex(pr[0]) != genePos) {
+						continue // a comparison on another element of the list
+					}
 					o := pr[1]
+					eqs = append(eqs, recEq{f, o, g})
 					switch f {
 					case "innovationType":
 						if o.Op == "const" && o.Name == wantTypeVal {
@@ -811,6 +857,57 @@ func c03Core(p *Prog, r *Run, sums *Summaries) {
 			}
 			r.Check(len(missing) == 0, name+".reuse-key", p.Pos(gc.call.Pos()), "matched under "+strings.Join(need, ", "),
 				name+": a recorded innovation is reused without comparing "+strings.Join(missing, ", ")+" with the values of the gene being created: two different connections can receive the same innovation number")
+			// exactness: the guard demands nothing that the record stored for the SAME innovation would fail. A key
+			// field is compared with the value the novel path records (C03.3); any further record field the guard
+			// compares must hold, in the record the novel path of this mutator builds, the very value it is compared
+			// with - otherwise an identical innovation of the same generation is not recognised and gets a second number.
+			if s.recCtor != nil && s.recCtor.Call.StaticCallee() != nil {
+				if sm := sums.Ctor(s.recCtor.Call.StaticCallee()); sm.Why == "" {
+					inNeed := map[string]bool{}
+					for _, f := range need {
+						inNeed[f] = true
+					}
+					var bad []string
+					for _, e := range eqs {
+						if inNeed[e.f] {
+							continue
+						}
+						var stored *Term
+						var fv *types.Var
+						for _, cand := range p.Fields(PkgG, "Innovation") {
+							if cand.Name() == e.f {
+								fv = cand
+							}
+						}
+						if fv != nil {
+							if t := sm.Fields[fv]; t != nil {
+								stored = t
+								if t.Op == "param" && t.Idx < len(s.recCtor.Call.Args) {
+									stored = s.tm.Of(s.recCtor.Call.Args[t.Idx])
+								}
+							}
+						}
+						same := false
+						switch {
+						case stored == nil:
+							same = e.o.Op == "const" && (e.o.Name == "false" || e.o.Name == "0" || e.o.Name == "nil")
+						case stored.Op == "const" && e.o.Op == "const":
+							same = stored.Name == e.o.Name
+						default:
+							same = stored.String() == e.o.String()
+						}
+						if !same {
+							st := "its zero value (the constructor never sets it)"
+							if stored != nil {
+								st = stored.String()
+							}
+							bad = append(bad, fmt.Sprintf("%s == %s, but the record stored for a novel innovation holds %s", e.f, e.o, st))
+						}
+					}
+					r.Check(len(bad) == 0, name+".reuse-key.exact", p.Pos(gc.call.Pos()), "every further record field the guard compares holds, in the record stored for the same innovation, the value it is compared with",
+						name+": the reuse guard also demands "+strings.Join(bad, "; ")+": the same innovation arising again in the same generation is not matched and receives a second number / node id")
+				}
+			}
 			// full scan: the loop is left only by exhaustion or through the block that creates the gene
 			okExit := true
 			for b := range s.innLoop.Blocks {
@@ -829,6 +926,11 @@ func c03Core(p *Prog, r *Run, sums *Summaries) {
 									}
 								}
 							}
+						}
+						// ... and so is leaving with the matched record handed out as a pointer that is nil while nothing matched
+						// (`var known *Innovation` ... `m := inn; known = &m; break` ... `if known != nil {…}`)
+						if s.leavesWithRecord(gc.call.Block(), b, sx) {
+							viaFlag = true
 						}
 						// leaving with the position of the matched record handed out is leaving through the match too
 						for _, e := range ixExits {
@@ -901,6 +1003,10 @@ func c03Core(p *Prog, r *Run, sums *Summaries) {
 					// the match may be established before the gene is built (the scan hands out the record's position):
 					// from there on nothing is issued or stored either
 					w = s.c03MatchExitIssues(p, q.call.Block(), fresh, issues, nextAttempt)
+				}
+				if w == nil {
+					// ... or as a pointer to (a copy of) the matched record
+					w = s.c03RecordExitIssues(p, q.call.Block(), fresh, issues, nextAttempt)
 				}
 				cn := name + ".novel.unmatched-only"
 				if i > 0 {
